@@ -12,6 +12,9 @@ Obligations
         W2 every derived node is `converter(source)` with the converter matching both names
            (closure of the real object) and E1 proves node(x) = x * per[u]/per[v]
         W3 derived nodes carry no rounding key
+        W4 two hard-coded rules that differ in the unit only: one of them is computed from the other
+           alone and E1 proves it equals the sibling times the factor (otherwise supplying one of
+           them as data would break the relation; replayed through the public API)
   B   bounded stand-in: the API computes x_y, x_m, x_w, x_d together consistently and accepts
       an input in another unit (never counted as proved)
 """
@@ -180,6 +183,51 @@ def _wiring_worker(job):
                 else:
                     st, detail = "refuted", f"{new} is neither a function nor a data column at {d}"
                 out["items"][str(key)] = {"name": f"W1:{name}->{new}", "status": st, "detail": detail, "date": str(d)}
+        # W4: explicit (hard-coded) rules that differ in the time unit only
+        by = {}
+        for name, func in e.functions.items():
+            p = parse_name(name, groupings, units)
+            if p:
+                by.setdefault((p[0], p[2]), []).append((p[1], name, func))
+        for (base, group), lst in by.items():
+            if len(lst) < 2:
+                continue
+            for v, vname, vfunc in lst:
+                sibs = {n: u for u, n, _ in lst if n != vname}
+                key = ("W4", vname, inspect.unwrap(vfunc).__qualname__, tuple(sorted(sibs)))
+                if key in seen:
+                    continue
+                seen.add(key)
+                out["n_checked"] += 1
+                args = [a for a in inspect.signature(inspect.unwrap(vfunc)).parameters]
+                sib_args = [a for a in args if a in sibs]
+                item = {"name": f"W4:{vname} is its sibling times the factor", "date": str(d), "status": "discharged", "detail": ""}
+                if not sib_args:
+                    # the other member of the pair must then be the derived one
+                    others_direct = [n for _, n, f in lst if n != vname and vname in inspect.signature(inspect.unwrap(f)).parameters]
+                    if not others_direct:
+                        item["status"] = "refuted"
+                        item["detail"] = f"{vname} and {sorted(sibs)} are both hard-coded and neither is computed from the other: supplying one of them as data breaks the factor relation"
+                        item["pair"] = [vname, sorted(sibs)[0]]
+                    out["items"][str(key)] = item
+                    continue
+                try:
+                    s = symx.summarise(vfunc, conc_args=e.conc_params_for(vfunc))
+                    sn = sib_args[0]
+                    x = s.args[sn][0]
+                    r = symx.real_term(s.result)
+                    F = per[sibs[sn]] / per[v]
+                    res = solve.check([z3.Not(_close(r, x * _real(F)))], 20)
+                    if res.status == "sat":
+                        item["status"] = "refuted"
+                        item["detail"] = f"{vname} is not {sn} * {F} for inputs {rules.model_inputs(res.model, s)}"
+                        item["pair"] = [vname, sn]
+                    elif res.status != "unsat":
+                        item["status"] = "unknown"
+                except (symx.Unsupported, symx.PathAbort) as ex:
+                    item["status"] = "unsupported"
+                    item["detail"] = str(ex)
+                out["items"][str(key)] = item
         # W2/W3: every derived node
         for name, f in allf.items():
             if venv.classify_node(name, f) != "time_conversion":
@@ -293,6 +341,33 @@ def bounded_api(rep, seed):
         rep.violation(f"api-cross-unit:{i}", b, {"what": b, "kind": "bounded stand-in"}, True)
 
 
+def replay_pair(date, vname, uname, per=None):
+    """Supply `uname` as a data column and request `vname`: the two must differ by the factor."""
+    import numpy
+
+    from _gettsim.config import SUPPORTED_GROUPINGS, SUPPORTED_TIME_UNITS, TYPES_INPUT_VARIABLES
+    from vt import popgen
+
+    per = per or documented_factors()
+    groupings = sorted(SUPPORTED_GROUPINGS, key=len, reverse=True)
+    units = list(SUPPORTED_TIME_UNITS)
+    e = venv.Env(datetime.date.fromisoformat(str(date)))
+    df = popgen.population(["single", "pensioners"], year=e.date.year)
+    vals = numpy.array([1234.5, 777.25, 31.0][: len(df)])
+    df[uname] = vals
+    roots = popgen.required_roots(e, [vname], list(df.columns))
+    missing = [r for r in roots if r not in df.columns]
+    for r in missing:
+        df[r] = 0.0
+    res = popgen.simulate(e, df, targets=[vname])
+    pu, pv = parse_name(uname, groupings, units), parse_name(vname, groupings, units)
+    F = float(per[pu[1]] / per[pv[1]])
+    got = res[vname].to_numpy()
+    want = vals * F
+    bad = not numpy.allclose(got, want, rtol=1e-9, atol=1e-9)
+    return {"violates": bool(bad), "what": f"with {uname}={vals.tolist()} supplied as data, {vname}={got.tolist()} but {uname}*{F}={want.tolist()}", "date": str(date)}
+
+
 def run(tier="quick", seed=0, jobs=16):
     rep = Report("C13", tier, seed, "proof")
     rep.assumptions = [ASSUMPTIONS["A1"], "factors per year are those of the table in docs/geps/gep-04.md (12, 365.25/7, 365.25); equality up to relative 2^-48 because 365.25/7 is not a binary float",
@@ -325,7 +400,20 @@ def run(tier="quick", seed=0, jobs=16):
             continue
         rep.ob(it["name"] + "@" + it["date"], it["status"], "z3", 0, "src/_gettsim/time_conversion.py", "wiring", it["detail"])
         if it["status"] == "refuted":
-            rep.violation(it["name"], it["detail"], {"obligation": it["name"], "date": it["date"], **{k2: it[k2] for k2 in ("input", "actual", "expected") if k2 in it}}, failing_input_found=True)
+            found = True
+            extra = {k2: it[k2] for k2 in ("input", "actual", "expected", "pair") if k2 in it}
+            if "pair" in it:
+                found = False
+                for dd in (it["date"], "2015-01-01", "2023-01-01", "2005-01-01"):
+                    try:
+                        extra["api"] = replay_pair(dd, it["pair"][0], it["pair"][1], per)
+                        found = bool(extra["api"]["violates"])
+                        extra.pop("api_error", None)
+                        if found:
+                            break
+                    except Exception as ex:  # noqa: BLE001
+                        extra["api_error"] = repr(ex)
+            rep.violation(it["name"], it["detail"] + (f" | API: {extra['api']['what']}" if "api" in extra else ""), {"obligation": it["name"], "date": it["date"], **extra}, failing_input_found=found)
     rep.add_counts(n_bulk, "z3+exact", 0.0, "wiring(W1-W3)")
     rep.samples = [o for o in rep.obligations[:3]] + [v for v in list(items.values())[:2]]
     try:
@@ -337,5 +425,9 @@ def run(tier="quick", seed=0, jobs=16):
 
 def replay(path):
     rp = json.loads(open(path).read())
+    if "pair" in rp:
+        r = replay_pair(rp["date"], rp["pair"][0], rp["pair"][1])
+        print(json.dumps(r, indent=1))
+        return 1 if r["violates"] else 0
     print(json.dumps(rp, indent=1))
     return 0
